@@ -30,24 +30,61 @@ def runs_clauses(prefix, X, L, q, b, m):
         (prefix + "-cover", "rl_cover(%s, %s, %s, %s, %s)" % (X, L, q, b, m)),
     ]
 
-TASK_INV = [
-    ("to_time", "to_time == -1"),
-    ("loopvar", "implies(_i > 0, time == _i - 1)"),
-    ("prev", "previous_state == (BaseTaskState.NONE if _i == 0 else self.state_record_list[_i - 1])"),
-    ("from-range", "from_time >= -1 and from_time < _i + (1 if _i == 0 else 0)"),
-    ("nothing-yet", "implies(from_time == -1, forall_int(0, _i, lambda k: self.state_record_list[k] == BaseTaskState.NONE))"),
-    ("open-run", "implies(from_time >= 0, forall_int(from_time, _i, lambda k: self.state_record_list[k] == previous_state)"
-                 " and (from_time == 0 or self.state_record_list[from_time - 1] != self.state_record_list[from_time]))"),
-] + runs_clauses("ready", "ready_time_list", "self.state_record_list", "BaseTaskState.READY", "(from_time if from_time >= 0 else _i)", "finish_margin") \
-  + runs_clauses("working", "working_time_list", "self.state_record_list", "BaseTaskState.WORKING", "(from_time if from_time >= 0 else _i)", "finish_margin")
 
-contract("BaseTask.get_time_list_for_gannt_chart",
-         props=["C19"],
-         types={"finish_margin": "Int"},
-         returns="Tuple[List[Tuple[Int,Int]],List[Tuple[Int,Int]]]",
-         requires=["forall(self.state_record_list, lambda s: s == BaseTaskState.NONE or s == BaseTaskState.READY"
-                   " or s == BaseTaskState.WORKING or s == BaseTaskState.FINISHED or s == BaseTaskState.WORKING_ADDITIONALLY)"],
-         ensures=runs_clauses("ready", "result[0]", "self.state_record_list", "BaseTaskState.READY", "len(self.state_record_list)", "finish_margin")
-                 + runs_clauses("working", "result[1]", "self.state_record_list", "BaseTaskState.WORKING", "len(self.state_record_list)", "finish_margin"),
-         modifies=[],
-         loops={0: TASK_INV})
+def lifecycle_encoder(cls, E, members):
+    """task / component encoder: previous_state starts as NONE, two result lists (READY runs, WORKING runs)"""
+    L = "self.state_record_list"
+    b = "(from_time if from_time >= 0 else _i)"
+    inv = [
+        ("to_time", "to_time == -1"),
+        ("loopvar", "implies(_i > 0, time == _i - 1)"),
+        ("prev", "previous_state == (%s.NONE if _i == 0 else %s[_i - 1])" % (E, L)),
+        ("from-range", "from_time >= -1 and from_time < _i + (1 if _i == 0 else 0)"),
+        ("nothing-yet", "implies(from_time == -1, forall_int(0, _i, lambda k: %s[k] == %s.NONE))" % (L, E)),
+        ("open-run", "implies(from_time >= 0, forall_int(from_time, _i, lambda k: %s[k] == previous_state)"
+                     " and (from_time == 0 or %s[from_time - 1] != %s[from_time]))" % (L, L, L)),
+    ] + runs_clauses("ready", "ready_time_list", L, E + ".READY", b, "finish_margin") \
+      + runs_clauses("working", "working_time_list", L, E + ".WORKING", b, "finish_margin")
+    contract(cls + ".get_time_list_for_gannt_chart",
+             props=["C19"],
+             types={"finish_margin": "Int"},
+             returns="Tuple[List[Tuple[Int,Int]],List[Tuple[Int,Int]]]",
+             # domain: every member of the enum (the property quantifies over all state sequences)
+             requires=["forall(%s, lambda s: %s)" % (L, " or ".join("s == %s.%s" % (E, m) for m in members))],
+             ensures=runs_clauses("ready", "result[0]", L, E + ".READY", "len(%s)" % L, "finish_margin")
+                     + runs_clauses("working", "result[1]", L, E + ".WORKING", "len(%s)" % L, "finish_margin"),
+             modifies=[],
+             loops={0: inv})
+
+
+def resource_encoder(cls, E, members):
+    """worker / facility encoder: previous_state starts as None, three result lists (FREE, WORKING, ABSENCE runs)"""
+    L = "self.state_record_list"
+    b = "(from_time if from_time >= 0 else _i)"
+    inv = [
+        ("to_time", "to_time == -1"),
+        ("loopvar", "implies(_i > 0, time == _i - 1)"),
+        ("prev", "previous_state == (None if _i == 0 else %s[_i - 1])" % L),
+        ("from-range", "from_time >= -1 and from_time < _i + (1 if _i == 0 else 0)"),
+        ("nothing-yet", "(from_time == -1) == (_i == 0)"),
+        ("open-run", "implies(from_time >= 0, forall_int(from_time, _i, lambda k: %s[k] == previous_state)"
+                     " and (from_time == 0 or %s[from_time - 1] != %s[from_time]))" % (L, L, L)),
+    ] + runs_clauses("free", "ready_time_list", L, E + ".FREE", b, "finish_margin") \
+      + runs_clauses("working", "working_time_list", L, E + ".WORKING", b, "finish_margin") \
+      + runs_clauses("absence", "absence_time_list", L, E + ".ABSENCE", b, "finish_margin")
+    contract(cls + ".get_time_list_for_gannt_chart",
+             props=["C19"],
+             types={"finish_margin": "Int"},
+             returns="Tuple[List[Tuple[Int,Int]],List[Tuple[Int,Int]],List[Tuple[Int,Int]]]",
+             requires=["forall(%s, lambda s: %s)" % (L, " or ".join("s == %s.%s" % (E, m) for m in members))],
+             ensures=runs_clauses("free", "result[0]", L, E + ".FREE", "len(%s)" % L, "finish_margin")
+                     + runs_clauses("working", "result[1]", L, E + ".WORKING", "len(%s)" % L, "finish_margin")
+                     + runs_clauses("absence", "result[2]", L, E + ".ABSENCE", "len(%s)" % L, "finish_margin"),
+             modifies=[],
+             loops={0: inv})
+
+
+lifecycle_encoder("BaseTask", "BaseTaskState", ["NONE", "READY", "WORKING", "FINISHED", "WORKING_ADDITIONALLY"])
+lifecycle_encoder("BaseComponent", "BaseComponentState", ["NONE", "READY", "WORKING", "FINISHED", "REMOVED"])
+resource_encoder("BaseWorker", "BaseWorkerState", ["FREE", "WORKING", "ABSENCE"])
+resource_encoder("BaseFacility", "BaseFacilityState", ["FREE", "WORKING", "ABSENCE"])
